@@ -6,7 +6,7 @@ CoreOps.tla and tags each failure with the property it violates."""
 import json, os
 import vflib
 
-HARNESS = ["vf_common.go", "vf_vfs.go", "vf_core.go", "vf_core2.go"]
+HARNESS = ["vf_common.go", "vf_vfs.go", "vf_core.go", "vf_core2.go", "vf_core3.go"]
 
 TRACE_CFG = """SPECIFICATION Spec
 CONSTANTS KnownDeviations = %s
